@@ -461,6 +461,94 @@ def r14_8(run, model):
            witness="let x: float64 = 18990.203130737194f64; whole-program Go has 18990.203130737194, build + link gives 18990.20313073719 (another float64)")
 
 
+def r14_18(run, model):
+    run.rule("R14.18", "the match compiler of `check` and of `build` looks types up in the same environment: in pipeline/separate.rs every "
+                       "function that runs compile_file builds its environment from the exports of each loaded dependency (an apply_to in a "
+                       "loop over the loaded units) and from the package's own exports - with the dependencies left out, a match on an imported "
+                       "enum or struct finds no definition (panic or a diagnostic that `build` does not give)")
+    SEP = "crates/compiler/src/pipeline/separate.rs"
+    n = 0
+    for f in model.fns(SEP):
+        if f.body is None:
+            continue
+        par = None
+        for c in S.walk(f.body):
+            if c["k"] != "Call" or S.callee_name(c) != "compile_file" or not c["args"]:
+                continue
+            env = sorted(S.idents(c["args"][0]))
+            if len(env) != 1:
+                raise AnalysisIncomplete(f"{f.name}: the environment handed to compile_file is not a plain name")
+            n += 1
+            par = par or S.Parents(f.body)
+            loaders = set()
+            for l in S.find(f.body, "Local"):
+                if l.get("init") is not None and any(True for _ in S.calls(l["init"], "load_interface_from_paths", "read_interface")):
+                    loaders |= set(S.pat_bindings(l["pat"]))
+            # collections the loaded units are pushed into
+            colls = {next(iter(S.idents(mc["recv"]))) for mc in S.walk(f.body) if mc["k"] == "MethodCall" and mc["method"] == "push"
+                     and mc["recv"]["k"] == "Path" and any(S.idents(a) & loaders for a in mc["args"])}
+            fills = [mc for mc in S.walk(f.body) if mc["k"] == "MethodCall" and mc["method"] == "apply_to" and any(env[0] in S.idents(a) for a in mc["args"])
+                     and mc["sp"][0] <= c["sp"][0]]
+            from_deps = [mc for mc in fills if any(a["k"] == "For" and S.idents(a["iter"]) & colls for a in par.ancestors(mc))]
+            own = [mc for mc in fills if not any(a["k"] in ("For", "While", "Loop") for a in par.ancestors(mc))]
+            ok = bool(from_deps) and bool(own)
+            run.ob("R14.18", f"{f.name}|compile_file sees the dependencies' and the package's own definitions", ok, site(SEP, c["sp"]),
+                   f"environment `{env[0]}`: {len(from_deps)} apply_to over the loaded units {sorted(colls)}, {len(own)} from the package itself",
+                   witness="package Lib { enum Color { Red, Green } }; in Main `match c { Lib::Red => .., Lib::Green => .. }`: `goml check` "
+                           "panics or reports where `goml build` succeeds")
+    run.floor("functions of separate.rs that run the match compiler", n, 2)
+
+
+def r14_19(run, model):
+    run.rule("R14.19", "an interface hash is recorded under the package it is the hash of: wherever pipeline/separate.rs stores an interface "
+                       "hash in a map keyed by package name, key and hash belong to one package - the unit was loaded under that name, key and "
+                       "hash are `u.package` / `u.interface_hash` of one unit `u`, or they are the (name, hash) pair of one turn over a "
+                       "`deps` map; a hash filed under another package's name makes packages that agree look inconsistent (or the reverse)")
+    SEP = "crates/compiler/src/pipeline/separate.rs"
+    n = 0
+    for f in model.fns(SEP):
+        if f.body is None:
+            continue
+        par = None
+        loaded = {}
+        for l in S.find(f.body, "Local"):
+            if l.get("init") is not None:
+                for c in S.calls(l["init"], "load_interface_from_paths", "read_interface", "read_core"):
+                    if c["args"]:
+                        for b in S.pat_bindings(l["pat"]):
+                            loaded[b] = S.idents(c["args"][0])
+        pairs = []
+        for loop in S.find(f.body, "For"):
+            if loop["pat"]["k"] == "PTuple" and re.search(r"\.deps\b", S.norm_ws(run.facts.text(SEP, loop["iter"]["sp"]))):
+                pairs.append(tuple(S.pat_bindings(loop["pat"])))
+        for mc in S.walk(f.body):
+            if mc["k"] != "MethodCall" or mc["method"] != "insert" or len(mc["args"]) != 2:
+                continue
+            k, v = mc["args"]
+            vt = S.norm_ws(run.facts.text(SEP, v["sp"]))
+            hashvars = {pr[1] for pr in pairs if len(pr) == 2}
+            units = set(re.findall(r"(\w+)(?:\.interface)?\.interface_hash\b", vt))
+            if not units and not (S.idents(v) & hashvars):
+                continue
+            n += 1
+            kt = S.norm_ws(run.facts.text(SEP, k["sp"]))
+            kid = S.idents(k)
+            ok = False
+            why = "key and hash are not shown to belong to one package"
+            for u in units:
+                if re.search(r"\b" + re.escape(u) + r"(\.interface)?\.package\b", kt):
+                    ok, why = True, f"key and hash are fields of the unit `{u}`"
+                elif u in loaded and loaded[u] & kid:
+                    ok, why = True, f"`{u}` was loaded under the name used as key"
+            for pr in pairs:
+                if len(pr) == 2 and pr[0] in kid and pr[1] in S.idents(v) and not units:
+                    ok, why = True, "key and hash are one (name, hash) pair of a deps map"
+            run.ob("R14.19", f"{f.name}|hash stored under `{kt[:30]}` is that package's hash", ok, site(SEP, mc["sp"]), f"value `{vt[:50]}`: {why}",
+                   witness="A and B import Shared (not imported by Main): Shared is filed under A's hash, B's pin of Shared differs from it and a "
+                           "consistent set of artifacts is refused by check/build while `goml run` on the sources succeeds")
+    run.floor("places that file an interface hash under a package name", n, 2)
+
+
 def r14_17(run, model):
     run.rule("R14.17", "every source file of a directory becomes part of the package in the whole-program loader, as it does for check and "
                        "build (which take the files they are given): in load_package each turn of the loop over the directory listing "
@@ -566,6 +654,8 @@ def run(run, model):
     run.rule("R14.3", "both pipelines gate on the same diagnostics: shared with C03 R03.1 (stage gating; resolver diagnostics merged in every package type-check)")
     run.try_rule(c03.r03_1, model)
     run.try_rule(r14_4, model)
+    run.try_rule(r14_18, model)
+    run.try_rule(r14_19, model)
     run.rule("R14.13", "a project accepted one way is accepted the other: the separate pipeline skips no import (shared with C16 R16.9; the "
                        "whole-program pipeline treats every import as a package edge)")
     run.try_rule(c16.no_import_skipped, model, "R14.13")
